@@ -20,6 +20,13 @@ theorem gen_monitor_shape : Gen.monitorShapeAsyncio = true ∧ Gen.monitorShapeT
   refine ⟨by decide, by decide, fun o => ?_⟩
   cases o <;> simp [Out.failing]
 
+/-- `MetaRunner.run` as written in the source (its one try statement, re-read on every run): a
+KeyboardInterrupt ends the run by a normal return, any other `Exception` leaves as
+`RuntimeError … from` it, every other `BaseException` leaves as it is, the `finally` only logs -
+the three results `Res.returned`, `Res.raisedRT`, `Res.raisedBase` of the LTS's `endRun` -/
+theorem gen_run_outcome :
+    Gen.runOutcome = [("KeyboardInterrupt", "return"), ("Exception", "raise RuntimeError from it")] := rfl
+
 /-- the first failure wins and is never forgotten: a failed latch names a payload whose body
 really ended with a failing outcome -/
 theorem latch_first_wins (s : St) (hr : Reach s) (f : Flav) (p : Nat) (h : s.latch f = .failed p) :
